@@ -65,3 +65,8 @@ def run(ctx):
                f"unquoter configuration {cfg} does not match the accessor contract {w}", sample=str(cfg))
     from ..rules import flow
     flow.f_build_args(ctx)      # a supplied user / password / host / port is never dropped by the builders
+    flow.f_sink(ctx)            # ... and what the builders and modifiers hand to the constructor is what is stored
+    # a supplied value reads back unchanged only if the modifier stores it: `return self` short-cuts never rest on comparing the
+    # text as supplied with an encoded component
+    flow.f_self(ctx, K, methods={"with_user", "with_password", "with_path", "with_name", "with_suffix", "with_fragment", "with_query",
+                                 "__truediv__", "joinpath", "_make_child"})
